@@ -127,14 +127,20 @@ def deep_agree(f, m, out, where, idxs=None):
         if f.pack != bytes(be):
             out.append(("C05:pack", "%s: %r model %r" % (where, f.pack, bytes(be))))
         nb = (w + 7) // 8
-        for l in (nb, nb + 1, nb + 3):
-            p = f.pack_len(l)
-            if p != bytes(m.be_bytes(l)):
-                out.append(("C05:pack_len", "%s: pack_len(%d)=%r model %r" % (where, l, p, bytes(m.be_bytes(l)))))
-            if (type(f)(p) if isinstance(f, frame.BackwardFrame) else type(f)(w, p)) != f:
-                out.append(("C05:reconstruct", "%s: Frame(w, pack_len(%d)) != f" % (where, l)))
-        # a byte string too short for the *value* must raise OverflowError
         need = (n.bit_length() + 7) // 8
+        # every length the VALUE fits in (also shorter than the frame's own packed length, down to 0 bytes for 0)
+        for l in sorted({need, need + 1, max(need, nb - 1), nb, nb + 1, nb + 3}):
+            p = f.pack_len(l)
+            if p != n.to_bytes(l, "big"):
+                out.append(("C05:pack_len", "%s: pack_len(%d)=%r model %r" % (where, l, p, n.to_bytes(l, "big"))))
+            if l >= nb and (type(f)(p) if isinstance(f, frame.BackwardFrame) else type(f)(w, p)) != f:
+                out.append(("C05:reconstruct", "%s: Frame(w, pack_len(%d)) != f" % (where, l)))
+        try:
+            p = f.pack_len(-1)
+            out.append(("C05:pack_len-negative-length", "%s: pack_len(-1) returned %r" % (where, p)))
+        except (ValueError, OverflowError):
+            pass
+        # a byte string too short for the *value* must raise OverflowError
         if need >= 1:
             try:
                 p = f.pack_len(need - 1)
